@@ -189,7 +189,9 @@ def run(ctx):
                 "cache: cases = random scripts (1-30 ops) of GenerateSecret(default|ROOTCA) with per-call CA behaviour (TTL -1h..90d, "
                 "signer, bundle, 4 error kinds), UpdateConfigTrustBundle, rotation callbacks aimed at current/stale/used/absent entries; "
                 "ratio in quarters, jitter in {0, 0.01, 1/16}. conc: N=1..12 goroutines, 0-3 failing CA calls, slow CA. "
-                "timer: real delayed queue, 1-2 s lifetimes. distinct = hash of (ops, implementation outputs) "
+                "citadel: real CitadelClient against an in-process gRPC CA (normal / three-element / leaf-only / empty chain, gRPC error). "
+                "sds: real sds.Server on its unix socket with 0-5 gRPC subscribers of default/ROOTCA, subscribe / drop / rotate / stale task / "
+                "bundle update. timer: real delayed queue, 3-5 s lifetimes (first delay > 1 s), plus a 200k-iteration stress of the queue. distinct = hash of (ops, implementation outputs) "
                 "(rotate: inputs only); non-trivial = at least one op")
     ctx.assumptions = [
         "float64 rounding in rotateTime is not modelled; real results are accepted within tol(L) = |L|/2^50 + 2 ns of the exact interval",
@@ -209,8 +211,9 @@ def run(ctx):
     ctx.diff_stream("cache", ctx.n(2500, 40000), oracle=oracle)
     ctx.diff_stream("conc", ctx.n(150, 2500), oracle=oracle)
     ctx.diff_stream("citadel", ctx.n(300, 6000), oracle=oracle)
+    ctx.diff_stream("sds", ctx.n(40, 1500), oracle=oracle)
     ctx.diff_stream("timer", ctx.n(8, 300), oracle=timer_oracle)
-    oracle_all(ctx, ["rotate", "cache", "conc", "citadel", "timer"])
+    oracle_all(ctx, ["rotate", "cache", "conc", "citadel", "sds", "timer"])
 
 
 def replay(ctx, path):
@@ -248,20 +251,29 @@ MANIFEST = {
                    "condition floor(clamp(r-J)*L) >= 1 ns (rotate_strictly_before_expiry; strictness_needs_margin shows it is needed), "
                    "monotonicity, and the hull of admissible delays used by the tie. (2) SecretManagerClient is modelled as processes "
                    "interleaving at atomic steps (GenerateSecret for both resources, rotation callbacks, UpdateConfigTrustBundle, arbitrary CA "
-                   "behaviour); nine invariants are proved for every schedule (inv_reachable) and give pair_consistent, single_flight "
-                   "(<= 1 successful CA call between two cache clears - single_flight_segment -, same pair for all calls inside one epoch), "
-                   "one renewal per stored certificate scheduled no later than expiry, stale callbacks are no-ops, failure_not_sticky, "
-                   "root_change_announced (both resources, after the fix of F-C18), root_includes_ca (sorted duplicate-free union). "
-                   "Both models are tied to /repo on every run by differential execution of the real code."),
+                   "behaviour); eleven invariants are proved for every schedule (inv_reachable) and give single_flight (<= 1 successful CA call "
+                   "between two cache clears - single_flight_segment -, same pair for all calls inside one epoch), every cached certificate "
+                   "has its renewal queued with delay <= time to expiry (cached_cert_has_rotation_scheduled), stale callbacks are no-ops, the "
+                   "`default` callback is delivered after the cache was emptied and never sees the certificate to be rotated "
+                   "(rotation_event_after_clear), failure_not_sticky, root_change_announced (both resources), root_includes_ca (sorted "
+                   "duplicate-free union). pair_consistent is structural in the model (an item is only built from one CA response and never "
+                   "recombined); that the REAL key and leaf belong together rests on the oracle's public-key comparison and the key/cert ids "
+                   "compared in every run. Both models are tied to /repo on every run by differential execution of the real code, including "
+                   "the real CitadelClient, the real SDS server and the real delayed queue."),
     "level_note": ("Trusted: Lean kernel + {propext, Classical.choice, Quot.sound}; the hand-written models (tied by differential testing: "
                    "real rotateTime observed 3x on 10^4 random certificates and judged by the model's interval with a float tolerance of "
-                   "|L|/2^50 + 2 ns; a real SecretManagerClient with a signing fake CA, recording queue and handler on 2500 random scripts, "
-                   "150 concurrent runs, 8 real-delayed-queue runs; quick tier); the verif-tagged accessor file "
-                   "security/pkg/nodeagent/cache/zz_verif_c18.go. Assumed: mutexes give atomic sections, the CA signs the CSR it is given, "
-                   "CreatedTime values of different CA responses differ, float64 rounding stays within the tolerance. Not modelled: "
-                   "file-mounted certificates / fsnotify paths, OutputKeyCertToDir, SDS push delivery (sdsservice.go), the gRPC CA client; "
-                   "pkg/queue/delay.go is executed but not modelled (the model lets a task run at any time, once). The scheduled delay is "
-                   "proved <= time to expiry from the instant rotateTime read the clock; the queue's enqueue latency comes on top."),
+                   "|L|/2^50 + 2 ns; a real SecretManagerClient with a signing fake CA, recording queue and a handler that records the cache "
+                   "state at callback time on 2500 random scripts; 150 concurrent runs; 300 scripts through the real CitadelClient and an "
+                   "in-process gRPC CA; 40 scripts through the real sds.Server with gRPC subscribers; 8 real-delayed-queue runs + a 200k "
+                   "iteration queue stress; quick tier); the verif-tagged accessor file security/pkg/nodeagent/cache/zz_verif_c18.go. "
+                   "Assumed: mutexes give atomic sections, the CA signs the CSR it is given, CreatedTime values of different CA responses "
+                   "differ, float64 rounding stays within the tolerance. Not modelled: file-mounted certificates / fsnotify paths, "
+                   "OutputKeyCertToDir; sdsservice.go, citadel/client.go and pkg/queue/delay.go are executed and compared but not modelled "
+                   "line by line (the model lets a pushed task run at any time, once; an SDS push is 'every current subscriber re-requests'). "
+                   "The interleaving semantics is tied to the real code sequentially and by concurrent GenerateSecret runs only (no timer / "
+                   "bundle update concurrent with GenerateSecret on the real code). The scheduled delay is proved <= time to expiry from the "
+                   "instant rotateTime read the clock; strictness is proved for rotateTime, not lifted to the system model; the queue's "
+                   "enqueue latency comes on top (lateness is observed against certificate expiry in the timer stream)."),
     "technique": "Lean 4 theorems over an exact model of rotateTime and an atomic-step interleaving model of SecretManagerClient + differential correspondence with the real Go code",
     "design_ref": "DESIGN.md section 5 C18",
 }
